@@ -55,6 +55,18 @@ def c04(sess):
 CONFORMANT = ("boot", "poll", "ack", "ack-empty", "report", "request", "render", "rerun", "persist")
 
 
+def inspection_clean(sess):
+    """Does WorkflowSpec.inspect() accept the definition of this case (cached on the session)?"""
+    if not hasattr(sess, "_inspect_clean"):
+        import copy
+        from orquesta.specs import native as native_specs
+        try:
+            sess._inspect_clean = not native_specs.WorkflowSpec(copy.deepcopy(sess.definition)).inspect()
+        except Exception:
+            sess._inspect_clean = False
+    return sess._inspect_clean
+
+
 def first_raw(sess):
     """Index of the first API call that is not part of a protocol-conformant provider operation."""
     for i, t in enumerate(sess.tags):
@@ -643,3 +655,92 @@ def cont_run(sm):
         sm.executed.append((key[0], key[1], key[2], s.inflight.get(key, 0), stt))
         sm.events += 1
     s.render()
+
+
+def c02(sess):
+    """Truthfulness of the reported status against the tasks and the provider's in-flight set."""
+    out = []
+    stop = first_raw(sess)
+    prev = None
+    fail_since_rerun = False
+    for i, (op, obs) in enumerate(sess.trace):
+        if i >= stop:
+            break
+        st = obs["state"]["state"]
+        status = st["status"]
+        infl = sess.inflight_log[i]
+        pointed = set(st["tasks"].values())
+        recs = [(k, r) for k, r in enumerate(st["sequence"]) if k in pointed]
+        boundary = sess.tags[i] in ("report", "request", "render", "rerun", "persist", "boot") or \
+            (sess.tags[i] in ("ack", "ack-empty") and (i + 1 == len(sess.tags) or sess.tags[i + 1] not in ("ack", "ack-empty")))
+        if op[0] == "rerun" and obs["raised"] is None:
+            fail_since_rerun = False
+        if prev is not None and len(st["sequence"]) > len(prev["state"]["state"]["sequence"]):
+            if any(r["id"] == "fail" for r in st["sequence"][len(prev["state"]["state"]["sequence"]):]):
+                fail_since_rerun = True
+        if boundary:
+            if status == "succeeded":
+                act = [r["id"] for _, r in recs if r.get("status") in ACTIVE]
+                if act:
+                    out.append({"what": "workflow succeeded while task executions are active: %r" % act, "step": i})
+                ready = [s["id"] for s in st["staged"] if s["ready"] and not s.get("completed")]
+                if ready:
+                    out.append({"what": "workflow succeeded while tasks are waiting to run: %r" % ready, "step": i})
+                if infl:
+                    out.append({"what": "workflow succeeded while %d action(s) are in flight" % len(infl), "step": i})
+                unhandled = [r["id"] for _, r in recs if r.get("status") in ABENDED and not any(r["next"].values())
+                             and r["id"] not in COMMANDS]
+                if unhandled:
+                    out.append({"what": "workflow succeeded although the failure of %r was not handled by any transition"
+                                        % unhandled, "step": i})
+                if fail_since_rerun:
+                    out.append({"what": "workflow succeeded although a fail command ran", "step": i})
+            if status in ("paused", "canceled") and infl and not sess.fam.get("intermediate"):
+                out.append({"what": "workflow %s while %d action(s) are in flight" % (status, len(infl)), "step": i})
+            if status in ("pausing", "canceling") and not infl:
+                out.append({"what": "workflow %s although no action is in flight" % status, "step": i})
+        # failure is absorbing
+        if prev is not None and sess.tags[i] == "report" and op[3][1] in ABENDED:
+            sb = wf_status(prev)
+            key = "%s__r%s" % (op[1], op[2])
+            if key in st["tasks"]:
+                r = st["sequence"][st["tasks"][key]]
+                handled = any(r["next"].values())
+                retried = r.get("status") in ("retrying",) or r.get("status") not in ABENDED
+                if not handled and not retried and sb in ("running", "pausing", "paused", "resuming") \
+                        and status != "failed":
+                    out.append({"what": "task %s failed with no matching transition but the workflow is %s" % (op[1], status),
+                                "step": i})
+        prev = obs
+    return out
+
+
+def c03(sess):
+    """Quiescence implies a resting status (side-effect-free poll at every quiescent point)."""
+    out = []
+    if not inspection_clean(sess):
+        return out
+    stop = first_raw(sess)
+    pause_requested = False
+    idx = 0
+    probes = dict((p[0], p) for p in getattr(sess, "probes", []))
+    for i, (op, obs) in enumerate(sess.trace):
+        if i >= stop:
+            break
+        if op[0] == "request_status" and op[1] in ("pausing", "paused") and obs["raised"] is None:
+            pause_requested = True
+        if any(r.get("status") in ("paused", "pending", "pausing") for r in obs["state"]["state"]["sequence"]) or \
+                any(x["status"] in ("paused", "pending", "pausing") for s in obs["state"]["state"]["staged"]
+                    for x in s.get("items", [])):
+            pause_requested = True      # a task-level pause is a legitimate reason as well
+        if i in probes:
+            _, status, offers, after = probes[i]
+            st = obs["state"]["state"]
+            if offers is False:
+                if status in ("running", "resuming", "pausing", "canceling", "requested", "scheduled", "delayed") \
+                        and after == status:
+                    out.append({"what": "workflow is %s with no action in flight and nothing on offer" % status, "step": i})
+                if status == "paused" and not pause_requested and \
+                        not any(r.get("status") in ("paused", "pending") for r in st["sequence"]):
+                    out.append({"what": "workflow is paused without a pause request or a paused/pending task", "step": i})
+    return out
